@@ -28,17 +28,17 @@ def rule_choices(n):
     return out
 
 
-def build_situation(src, n, max_load=150, prefix='', lean=False):
+def build_situation(src, n, max_load=150, prefix='', lean=False, states=None, nodes=None):
     """real core in a symbolic placement situation + the plain description of it for the oracle"""
     from supvisors.ttypes import SupvisorsInstanceStates as S
     core = Core(n, 0)
     ids = core.ids
-    node = src.pick(prefix + 'nodes', node_maps(n))
+    node = src.pick(prefix + 'nodes', nodes or node_maps(n))
     for i, ident in enumerate(ids):
         core.identify(ident, node[i])
     running = []
     for i, ident in enumerate(ids):
-        st = src.choice(f'{prefix}ist{i}', list(S))
+        st = src.choice(f'{prefix}ist{i}', [S[x] for x in states] if states else list(S))
         adapter.plant_instance_state(core, ident, st)
         running.append(st == S.RUNNING)
     # running load: one ballast process RUNNING on each instance with a symbolic expected_loading
